@@ -174,9 +174,39 @@ theorem roundtrip_end_to_end_partial (diffFn : DiffFn) (hdf : DiffFnOK diffFn) (
   parse_materialize diffFn hdf style n _ hs _ _ hwf (diffWF_of_linesFrom hlf) (LabelsOK_fromVec hl)
     (detectEol_isEol files)
 
+instance (files : List Bytes) (hs : List (List Bytes)) : Decidable (LinesFrom files hs) := by
+  unfold LinesFrom; infer_instance
+
+instance (d : List DiffGroup) (l r : Bytes) : Decidable (DiffOK d l r) :=
+  decidable_of_iff ((d.map (·.left)).flatten = l ∧ (d.map (·.right)).flatten = r ∧
+      (∀ g ∈ d, g.matching = true → g.left = g.right) ∧ (∀ g ∈ d, EndsLF g.left ∧ EndsLF g.right))
+    ⟨fun ⟨a, b, c, e⟩ => ⟨a, b, c, e⟩, fun ⟨a, b, c, e⟩ => ⟨a, b, c, e⟩⟩
+
+/-- All hypotheses of `roundtrip_end_to_end_partial` about one real `merge_hunks` output, as one
+decidable check (the driver op `C05 wf` evaluates exactly this). -/
+def RoundTripHyps (files : List Bytes) (n : Nat) (hs : List (List Bytes)) : Prop :=
+  HunksWF n (chooseMarkerLen files) hs ∧ LinesFrom files hs
+
+instance (files : List Bytes) (n : Nat) (hs : List (List Bytes)) : Decidable (RoundTripHyps files n hs) := by
+  unfold RoundTripHyps; infer_instance
+
+/-- non-vacuity of `DiffFnOK`: the coarsest diff (one "different" group) satisfies it -/
+example : DiffFnOK (fun l r => [{ matching := false, left := l, right := r }]) := by
+  intro l r hl hr
+  exact ⟨by simp, by simp, by simp, by simp [hl, hr]⟩
+
 /-- non-vacuity: a 2-sided conflict between resolved context, the last side lacking the final EOL,
 with a short marker look-alike in the content -/
 example : HunksWF 2 7 [[[97, 10]], [[98, 10], [60, 60, 60, 10], []], [[99, 10]], [[100], [], [101, 10]]] := by
+  decide
+
+example : DiffWF 7 [[[97, 10]], [[98, 10], [60, 60, 60, 10], []], [[99, 10]], [[100], [], [101, 10]]] := by
+  decide
+
+/-- … and the hypotheses of the end-to-end theorem on the files these hunks come from
+(`a\nb\nc\nd`, `a\n<<<\nc\n`, `a\nc\ne\n`): chosen length 7 -/
+example : RoundTripHyps [[97, 10, 98, 10, 99, 10, 100], [97, 10, 60, 60, 60, 10, 99, 10], [97, 10, 99, 10, 101, 10]] 2
+    [[[97, 10]], [[98, 10], [60, 60, 60, 10], []], [[99, 10]], [[100], [], [101, 10]]] := by
   decide
 
 end JjModel.C05
